@@ -10,7 +10,8 @@ RULE = ("(a) exhaustive: every binary matrix of every shape m x n with m, n >= 1
         "(b) Hypothesis: shapes up to 40 x 28 drawn from four distributions (uniform, low-rank product, full column "
         "rank, zero/single-row) and dtypes int8/int32/int64. A case is one matrix; non-trivial = rank-deficient with "
         ">= 2 free columns, or full column rank (trivial kernel); distinct by (shape, rows). Oracle: own bitmask "
-        "elimination, plus brute-force span / kernel enumeration when <= 12 rows / columns.")
+        "elimination, plus brute-force span / kernel enumeration when <= 12 rows / columns. A share of the cases is preceded by calls "
+        "on related matrices (same entries reshaped, transposed, other dtype, one bit flipped): answers must not depend on history.")
 ASSUMPTIONS = ["numpy integer arithmetic", "own bitmask Gaussian elimination cross-checked by brute-force enumeration on all small cases"]
 BUDGET = {"quick": 120, "thorough": 1500}
 DTYPES = ["int8", "int32", "int64"]
@@ -88,10 +89,35 @@ def check_matrix(case):
     fails = []
 
     def bad(key, msg, **extra):
-        fails.append((key, f"{msg} [matrix {m}x{n} rows={rows} dtype={dtype}]", extra))
+        pre = f" after calls on {case['prelude']} variants" if case.get("prelude") else ""
+        fails.append((key, f"{msg} [matrix {m}x{n} rows={rows} dtype={dtype}{pre}]", extra))
 
     A = to_np(rows, n, dtype)
     A0 = A.copy()
+    # history: the routines are called on related matrices first (same entries in another shape / transposed / other dtype /
+    # the previous matrix of the sweep); the answers for A below must not depend on that
+    for pk in case.get("prelude", []):
+        try:
+            if pk == "reshape":
+                P = None
+                for m2 in range(1, m * n + 1):
+                    if (m * n) % m2 == 0 and m2 != m:
+                        P = A.reshape(m2, (m * n) // m2).copy()
+                        break
+                if P is None:
+                    continue
+            elif pk == "transpose":
+                P = A.T.copy()
+            elif pk == "dtype":
+                P = A.astype(np.int16 if dtype != "int16" else np.int8)
+            elif pk == "flip":
+                P = A.copy()
+                P[0, 0] ^= 1
+            else:
+                continue
+            f2.rref(P); f2.rank(P); f2.null_space(P); f2.rref_and_basis_change(P)
+        except Exception:  # noqa: BLE001
+            pass
     want_rref, want_piv = my_rref(rows, n)
     r = len(want_piv)
     small = m <= 12 and n <= 12
@@ -192,7 +218,7 @@ def classify(case):
     free = n - r
     kind = "trivial-kernel" if free == 0 else ("free>=2" if free >= 2 else "free=1")
     nt = (n, tuple(rows)) if (free == 0 or free >= 2) else None
-    return nt, {"kernel_kind": kind, "dtype": case.get("dtype", "int8"),
+    return nt, {"kernel_kind": kind, "dtype": case.get("dtype", "int8"), "prelude": "+".join(case.get("prelude", [])) or "none",
                 "shape_bucket": f"{min(len(rows), 40) // 8 * 8}+x{n // 8 * 8}+"}
 
 
@@ -209,6 +235,9 @@ def shard_exhaustive(arg):
     for code in range(lo, hi):
         rows = [(code >> (i * n)) & mask for i in range(m)]
         case = {"rows": rows, "n": n, "dtype": DTYPES[code % 3] if (m * n) >= 6 else "int8"}
+        pre = [[], ["reshape"], ["transpose"], ["flip"], ["reshape", "dtype"]][(code // 3) % 5]
+        if pre:
+            case["prelude"] = pre
         fails = check_matrix(case)
         nt, tabs = classify(case)
         rep.case(nt, case if code == (hi - 1) else None)
@@ -263,7 +292,11 @@ def strategy():
             q = draw(st.integers(2, 6)); k = draw(st.integers(1, q))
             m, n = q * k, 4 * q
             rows = [draw(st.integers(0, (1 << n) - 1)) for _ in range(m)]
-        return {"rows": list(rows), "n": n, "dtype": dtype, "kind": kind}
+        case = {"rows": list(rows), "n": n, "dtype": dtype, "kind": kind}
+        pre = draw(st.sampled_from([[], [], ["reshape"], ["transpose"], ["flip"], ["dtype"], ["reshape", "transpose"]]))
+        if pre:
+            case["prelude"] = pre
+        return case
     return mats()
 
 
